@@ -102,10 +102,14 @@ impl JoinNumericPlugin {
                 for c in s.chars() {
                     if !parser.append(&c) {
                         if begin_idx >= 0 {
-                            if parser.error_state == numeric_parser::Error::COMMA {
+                            // restart the run without the offending separator only if that separator
+                            // was still treated as a digit: otherwise the same run would fail for ever
+                            if parser.error_state == numeric_parser::Error::COMMA && comma_as_digit {
                                 comma_as_digit = false;
                                 i = begin_idx - 1;
-                            } else if parser.error_state == numeric_parser::Error::POINT {
+                            } else if parser.error_state == numeric_parser::Error::POINT
+                                && period_as_digit
+                            {
                                 period_as_digit = false;
                                 i = begin_idx - 1;
                             }
